@@ -23,6 +23,22 @@ theorem getElem?_listSet {α : Type} (l : List α) (i j : Nat) (a : α) :
       | zero => simp [listSet]
       | succ j => simp [listSet, ih]
 
+theorem lookup_setAssoc_ne {α : Type} {m n : String} (h : m ≠ n) (v : α) :
+    ∀ l : List (String × α), lookupAssoc m (setAssoc n v l) = lookupAssoc m l
+  | [] => by
+    simp only [setAssoc, lookupAssoc]
+    split
+    · next heq => exact absurd (beq_iff_eq.mp heq).symm h
+    · rfl
+  | (k, w) :: rest => by
+    simp only [setAssoc]
+    split
+    · next heq =>
+      have hk : k = n := beq_iff_eq.mp heq
+      have : (k == m) = false := by simp [hk, Ne.symm h]
+      simp [lookupAssoc, this]
+    · simp only [lookupAssoc, lookup_setAssoc_ne h v rest]
+
 theorem forall2_imp' {α β : Type} {R S : α → β → Prop} (h : ∀ a b, R a b → S a b) {l1 l2}
     (hl : Forall2 R l1 l2) : Forall2 S l1 l2 := Forall2.imp h hl
 
@@ -60,8 +76,8 @@ theorem SRel.unpackAux (t n i : Nat) : unpackAux σ' t n i = Sem.unpackAux σ t 
 theorem SRel.getCell {a b : Nat} (hab : β a b) : σ'.getCell b = σ.getCell a := by
   simp only [State.getCell, h.cell hab]
 
-theorem SRel.lookupVar {D : List String} {env env' : Env N} (he : EnvRel β D env.locals env'.locals)
-    {n : String} (hn : n ∉ D) : lookupVar env' n σ' = Sem.lookupVar env n σ := by
+theorem SRel.lookupVar {D : List DName} {env env' : Env N} (he : EnvRel β D env.locals env'.locals)
+    {n : String} (hn : DName.ref n ∉ D) : lookupVar env' n σ' = Sem.lookupVar env n σ := by
   have := he n hn
   simp only [Sem.lookupVar]
   cases h1 : lookupAssoc n env.locals <;> cases h2 : lookupAssoc n env'.locals <;> rw [h1, h2] at this <;>
@@ -77,7 +93,7 @@ theorem SRel.closure_length : σ'.closures.length = σ.closures.length := by
   | nil => rfl
   | cons _ _ ih => simp only [List.length_cons, ih]
 
-theorem SRel.closure_get (i : Nat) : OptRel (CRel Q β) σ.closures[i]? σ'.closures[i]? := by
+theorem SRel.closure_get (i : Nat) : OptRel (CRel Q cx β) σ.closures[i]? σ'.closures[i]? := by
   have := h.closures
   generalize σ.closures = l at this
   generalize σ'.closures = l' at this
@@ -95,8 +111,13 @@ theorem SRel.setTable (i : Nat) (t : Table N) : SRel Q cx β (σ.setTable i t) (
 theorem SRel.allocTable (t : Table N) :
     (σ'.allocTable t).1 = (σ.allocTable t).1 ∧ SRel Q cx β (σ.allocTable t).2 (σ'.allocTable t).2 :=
   ⟨by simp only [State.allocTable, h.tables], { h with tables := by simp only [State.allocTable, h.tables] }⟩
-theorem SRel.setGlobal (n : String) (v : Val N) : SRel Q cx β (σ.setGlobal n v) (σ'.setGlobal n v) :=
-  { h with globals := by simp only [State.setGlobal, h.globals] }
+theorem SRel.setGlobal (n : String) (hn : n ∉ cx.W) (v : Val N) : SRel Q cx β (σ.setGlobal n v) (σ'.setGlobal n v) :=
+  { h with
+    globals := by simp only [State.setGlobal, h.globals]
+    ginv := fun p hp => by
+      have hne : p.1 ≠ n := fun e => hn (e ▸ cx.sub N p hp)
+      simp only [State.getGlobal, State.setGlobal, lookup_setAssoc_ne hne]
+      exact h.ginv p hp }
 theorem SRel.rawSet (t : Nat) (k v : Val N) : SRel Q cx β (σ.rawSet t k v) (σ'.rawSet t k v) := by
   simp only [State.rawSet, h.getTable]; exact h.setTable _ _
 theorem SRel.pushTrace (e : Event) :
@@ -108,7 +129,7 @@ theorem SRel.setMany (t : Nat) (i : Nat) (vs : List (Val N)) :
   | nil => exact h
   | cons v vs ih => simp only [Sem.setMany]; exact ih (h.rawSet _ _ _) _
 
-theorem SRel.allocClosure {c c' : Closure N} (hc : CRel Q β c c') :
+theorem SRel.allocClosure {c c' : Closure N} (hc : CRel Q cx β c c') :
     (σ'.allocClosure c').1 = (σ.allocClosure c).1 ∧ SRel Q cx β (σ.allocClosure c).2 (σ'.allocClosure c').2 :=
   ⟨by simp only [State.allocClosure, h.closure_length],
    { h with closures := forall2_snoc h.closures hc }⟩
@@ -119,6 +140,7 @@ theorem SRel.setCell {a b : Nat} (hab : β a b) (v : Val N) : SRel Q cx β (σ.s
   globals := h.globals
   tables := h.tables
   trace := h.trace
+  ginv := h.ginv
   inj := h.inj
   bound := fun hxy => by
     simp only [State.setCell, length_listSet]; exact h.bound hxy
@@ -136,19 +158,21 @@ theorem SRel.setCell {a b : Nat} (hab : β a b) (v : Val N) : SRel Q cx β (σ.s
       exact h.cell hxy
   closures := h.closures
 
-theorem SRel.assignVar {D : List String} {env env' : Env N} (he : EnvRel β D env.locals env'.locals)
-    {n : String} (hn : n ∉ D) (v : Val N) : SRel Q cx β (Sem.assignVar env n v σ) (Sem.assignVar env' n v σ') := by
-  have := he n hn
+theorem SRel.assignVar {D : List DName} {env env' : Env N} (he : LocOK cx β D env.locals env'.locals)
+    {n : String} (hn : DName.ref n ∉ D) (hw : DName.wat n ∉ D) (v : Val N) :
+    SRel Q cx β (Sem.assignVar env n v σ) (Sem.assignVar env' n v σ') := by
+  have := he.rel n hn
   simp only [Sem.assignVar]
   cases h1 : lookupAssoc n env.locals <;> cases h2 : lookupAssoc n env'.locals <;> rw [h1, h2] at this <;>
     simp only [OptRel] at this
-  · exact h.setGlobal n v
+  · exact h.setGlobal n (fun hm => hw (he.dw n hm)) v
   · exact h.setCell this v
 
 theorem SRel.allocBoth (v : Val N) : SRel Q cx (extBoth β σ σ') (σ.allocCell v).2 (σ'.allocCell v).2 where
   globals := h.globals
   tables := h.tables
   trace := h.trace
+  ginv := h.ginv
   inj := fun {a b a' b'} h1 h2 => by
     rcases h1 with h1 | ⟨rfl, rfl⟩ <;> rcases h2 with h2 | ⟨rfl, rfl⟩
     · exact h.inj h1 h2
@@ -173,6 +197,7 @@ theorem SRel.allocLeft (v : Val N) : SRel Q cx β (σ.allocCell v).2 σ' where
   globals := h.globals
   tables := h.tables
   trace := h.trace
+  ginv := h.ginv
   inj := h.inj
   bound := fun h1 => by
     simp only [State.allocCell, List.length_append, List.length_singleton]
@@ -187,6 +212,7 @@ theorem SRel.allocRight (v : Val N) : SRel Q cx β σ (σ'.allocCell v).2 where
   globals := h.globals
   tables := h.tables
   trace := h.trace
+  ginv := h.ginv
   inj := h.inj
   bound := fun h1 => by
     simp only [State.allocCell, List.length_append, List.length_singleton]
@@ -199,16 +225,18 @@ theorem SRel.allocRight (v : Val N) : SRel Q cx β σ (σ'.allocCell v).2 where
 end
 
 /-- `bindLocals` on both sides: the fresh cells are paired up -/
-theorem SRel.bindLocals {σ σ' : State N} (h : SRel Q cx β σ σ') {D : List String} (ns : List String)
-    (vs : List (Val N)) {l l' : List (String × Nat)} (he : EnvRel β D l l') :
+theorem SRel.bindLocals {σ σ' : State N} (h : SRel Q cx β σ σ') {D : List DName} (ns : List String)
+    (hns : ∀ n ∈ ns, DName.wat n ∉ D)
+    (vs : List (Val N)) {l l' : List (String × Nat)} (he : LocOK cx β D l l') :
     ∃ β', β.le β' ∧ SRel Q cx β' (Sem.bindLocals ns vs l σ).2 (Sem.bindLocals ns vs l' σ').2 ∧
-      EnvRel β' D (Sem.bindLocals ns vs l σ).1 (Sem.bindLocals ns vs l' σ').1 := by
+      LocOK cx β' D (Sem.bindLocals ns vs l σ).1 (Sem.bindLocals ns vs l' σ').1 := by
   induction ns generalizing vs l l' σ σ' β with
   | nil => exact ⟨β, β.le_refl, h, he⟩
   | cons n ns ih =>
     simp only [Sem.bindLocals]
     have h1 := h.allocBoth (first vs)
-    obtain ⟨β', hle, hs, henv⟩ := ih h1 (List.drop 1 vs) ((he.mono le_extBoth).cons n extBoth_new)
+    obtain ⟨β', hle, hs, henv⟩ := ih h1 (fun m hm => hns m (List.mem_cons_of_mem _ hm)) (List.drop 1 vs)
+      ((he.mono le_extBoth).cons n (hns n List.mem_cons_self) extBoth_new)
     exact ⟨β', CellRel.le_trans le_extBoth hle, hs, henv⟩
 
 end DarkluaModel.Sem.Heap
